@@ -403,7 +403,16 @@ pub fn gen(prop: &str, rng: &mut Rng, quick: bool, st: &mut Stats) -> Option<Vec
             }
         }
         "C13" => {
-            let archives = sample_archives(rng, true, st);
+            let mut archives = sample_archives(rng, true, st);
+            // tiles larger than any plausible internal transfer unit (64 KiB, 128 KiB): short transfers inside one tile
+            {
+                let mut ops = vec!["c:none".to_string()];
+                for (i, n) in [70_000usize, 3, 140_001, 65_536, 65_537].iter().enumerate() {
+                    ops.push(format!("a:{:x}:{}", 5 * i + 1, hex_bytes(&rng.bytes(*n))));
+                }
+                archives.insert(1, write_plain("sync", &ops.join(";")).expect("write"));
+                st.bump("archives_with_tiles_over_64k");
+            }
             for (k, b) in archives.iter().enumerate() {
                 for mode in ["sync", "async"] {
                     c.push(format!("chk_sched open {mode} {:x} {} u_u", rng.next(), hex_bytes(b)));
@@ -543,6 +552,38 @@ pub fn gen(prop: &str, rng: &mut Rng, quick: bool, st: &mut Stats) -> Option<Vec
                 for rg in ["u_e0", "i0_e0", "i0_i0", "e0_u", "u_i0", "e0_e1", "i0_e1", "u_u", "i1_u", "e5555555555555553_u", "i5555555555555554_i5555555555555554", "u_effffffffffffffff", "effffffffffffffff_u", "i5_i3"] {
                     c.push(format!("chk_sa_hist o:X:{rg}:{};l;n;g:0;g:1;g:5555555555555554", hex_bytes(&b)));
                 }
+            }
+            // metadata of many sizes (in particular beyond any internal buffer size), every codec
+            for (k, size) in [0usize, 1, 100, 4000, 16_383, 16_384, 16_385, 20_000, 70_000, 300_000].iter().enumerate() {
+                for (j, comp) in ALL_COMP.iter().enumerate() {
+                    if quick && (k + j) % 2 == 1 && *size != 20_000 {
+                        continue;
+                    }
+                    // {"k":"xyxy..."} with a text that does not compress to nothing
+                    let mut text = String::with_capacity(*size);
+                    while text.len() < *size {
+                        text.push(char::from(b'a' + (rng.next() % 26) as u8));
+                    }
+                    let json = format!("{{\"k\":\"{text}\"}}");
+                    c.push(format!("chk_sa_hist c:{};m:{};a:3:0102;s:X:Y;q;l;n;g:3", comp_tok(*comp), hex_bytes(json.as_bytes())));
+                    st.bump("sa_metadata_sizes");
+                }
+            }
+            // lookups by coordinates inside, at the edge of and outside the grid (zoom 32 has ids but no grid)
+            {
+                let mut ops: Vec<String> = Vec::new();
+                for id in [0u64, 1, 4, BASE32 - 1, BASE32, BASE32 + 1, BASE32 + 5, crate::p_codec::ref_tile_id(31, 5, 3), crate::p_codec::ref_tile_id(5, 3, 7), crate::p_codec::ref_tile_id(5, 7, 3)] {
+                    ops.push(format!("a:{id:x}:{:02x}{:02x}", id % 251, id % 7));
+                }
+                let mut probes: Vec<String> = Vec::new();
+                for z in [0u8, 1, 5, 31, 32, 33, 64, 255] {
+                    for (x, y) in [(0u64, 0u64), (1, 0), (0, 1), (3, 7), (7, 3), (5, 3), (u64::from(u32::MAX), 0), (1 << 31, 1 << 31), (u64::MAX, 0)] {
+                        probes.push(format!("x:{x:x}:{y:x}:{z:x}"));
+                    }
+                }
+                c.push(format!("chk_sa_hist {};{}", ops.join(";"), probes.join(";")));
+                c.push(format!("chk_sa_hist {};s:X:Y;{}", ops.join(";"), probes.join(";")));
+                st.bump("sa_coordinate_lookups");
             }
             // single operations
             for k in 0..(if quick { 60 } else { 600 }) {
